@@ -212,12 +212,35 @@ class RecExecutor:
         self.submitted.append(f)
 
 
+class StubFile:
+    """a pathlib-like query file that may already exist (a dump directory kept from an earlier run or shared by tests)"""
+
+    def __init__(self, name, exists):
+        self.name, self._exists = name, exists
+
+    def exists(self):
+        return self._exists
+
+    def is_file(self):
+        return self._exists
+
+    def __str__(self):
+        return self.name
+
+    def __fspath__(self):
+        return self.name
+
+
 def timeout_cases():
+    return [_timeout_case(False), _timeout_case(True)]
+
+
+def _timeout_case(file_exists):
     def harness(interp):
         ctx = interp.ctx
         ex = RecExecutor()
         args = types.SimpleNamespace(verbose=0, resolved_solver_command=["solver"], solver_timeout_assertion=1.5)
-        pc = types.SimpleNamespace(args=args, path_id=9, dump_file="/nonexistent/q.smt2", solving_ctx=types.SimpleNamespace(executor=ex))
+        pc = types.SimpleNamespace(args=args, path_id=9, dump_file=StubFile("/nonexistent/q.smt2", file_exists), solving_ctx=types.SimpleNamespace(executor=ex))
         dumped = []
         interp.contracts["halmos.solve:dump"] = lambda i, a, k: dumped.append(a[0])
         made = []
@@ -237,9 +260,9 @@ def timeout_cases():
             return
         ctx.oblige("timeout-is-reported-as-unknown-never-unsat", z3.BoolVal(r.result == z3.unknown and r.result != z3.unsat))
         ctx.oblige("timed-out-return-code", z3.BoolVal(r.returncode == hsolve.EXIT_TIMEDOUT and r.path_id == 9))
-        ctx.oblige("query-written-and-job-submitted-once-with-the-time-limit", z3.BoolVal(dumped == [pc] and len(made) == 1 and ex.submitted == made and made[0].timeout == 1.5 and made[0].cmd == ["solver", "/nonexistent/q.smt2"]))
+        ctx.oblige("the query of THIS path is written before the solver is started, whether or not a file of that name already exists, and the job is submitted once with the time limit", z3.BoolVal(dumped == [pc] and len(made) == 1 and ex.submitted == made and made[0].timeout == 1.5 and made[0].cmd == ["solver", "/nonexistent/q.smt2"]), info={"dumped": len(dumped)})
 
-    return [Case(f"{PROP}/solve.solve_low_level", "future raises TimeoutExpired", harness, sources=("halmos.solve:solve_low_level",))]
+    return Case(f"{PROP}/solve.solve_low_level", "future raises TimeoutExpired" + ("; query file already exists" if file_exists else ""), harness, replay=replay_script("stale_query_file.py", "two tests with the same name under one --dump-smt-directory"), sources=("halmos.solve:solve_low_level",))
 
 
 # ---------------------------------------------------------------------------------------
@@ -265,10 +288,11 @@ class StuckReason(Exception):
 
 def mk_path_stub(kind):
     """a yielded Exec of one of the four kinds the property distinguishes"""
-    out = NS(error=None if kind == "success" else ("revert" if kind in ("revert", "panic", "fail") else StuckReason("unsupported")), data=None if kind == "stuck" else b"")
+    # "substuck": stopped by an unsupported feature inside a sub-call: this frame has neither an error nor output data
+    out = NS(error=None if kind in ("success", "substuck") else ("revert" if kind in ("revert", "panic", "fail") else StuckReason("unsupported")), data=None if kind in ("stuck", "substuck") else b"")
     cx = NS(output=out)
-    cx.is_stuck = lambda: kind == "stuck"
-    cx.get_stuck_reason = lambda: out.error
+    cx.is_stuck = lambda: kind in ("stuck", "substuck")
+    cx.get_stuck_reason = lambda: out.error or StuckReason("unsupported feature in a sub-call")
     ex = NS(context=cx, call_sequence=[])
     ex.path = NS(to_smt2=lambda args: "QUERY")
     ex.is_panic_of = lambda codes: kind == "panic"
@@ -277,7 +301,7 @@ def mk_path_stub(kind):
 
 def classification_cases():
     out = []
-    kinds = ["success", "revert", "panic", "fail", "stuck:unsat", "stuck:sat", "stuck:unknown", "stuck:err", "shutdown"]
+    kinds = ["success", "revert", "panic", "fail", "stuck:unsat", "stuck:sat", "stuck:unknown", "stuck:err", "substuck:unsat", "substuck:sat", "substuck:unknown", "shutdown"]
     for kind in kinds:
 
         def harness(interp, kind=kind):
@@ -323,7 +347,7 @@ def classification_cases():
                 ok = len(handled) == 1 and handled[0].get("ex") is ex and handled[0].get("panic_found") == (k0 == "panic") and not stuck and not solved
                 ctx.oblige("assertion-violating path is handed to the solver exactly once", z3.BoolVal(ok), info={"handled": len(handled)})
                 ctx.oblige("counters: potential+1, normal unchanged", z3.And(dp == 1, dn == 0))
-            elif k0 == "stuck":
+            elif k0 in ("stuck", "substuck"):
                 r = kind.split(":")[1]
                 ctx.oblige("stuck path: feasibility is asked of the solver once, on this path's query", z3.BoolVal(len(solved) == 1 and getattr(solved[0], "query", None) == "QUERY" and not handled))
                 kept = len(stuck) == 1 and stuck[0][1] is ex
@@ -618,8 +642,27 @@ def join_cases():
     return out
 
 
+def context_cases():
+    """every solving context (one per test / setUp / probe) owns its executor and its list of unsat cores: a shutdown
+    (early exit, end of a test) or a core recorded in one context never reaches another"""
+    import dataclasses
+
+    def harness(interp):
+        ctx = interp.ctx
+        a = hsolve.SolvingContext(dump_dir="<dir a>")
+        b = hsolve.SolvingContext(dump_dir="<dir b>")
+        ctx.oblige("two solving contexts never share their executor (a shutdown of one leaves the other usable)", z3.BoolVal(a.executor is not b.executor and not b.executor.is_shutdown()))
+        ctx.oblige("two solving contexts never share their list of unsat cores", z3.BoolVal(a.unsat_cores is not b.unsat_cores and a.unsat_cores == []))
+        a.executor.shutdown(wait=False)
+        ctx.oblige("after the first context's executor was shut down a fresh context still accepts jobs", z3.BoolVal(not hsolve.SolvingContext(dump_dir="<dir c>").executor.is_shutdown() and not b.executor.is_shutdown()))
+        flds = {f.name: f for f in dataclasses.fields(hsolve.SolvingContext)}
+        ctx.oblige("the mutable members of SolvingContext are created per instance (default_factory), not once at import", z3.BoolVal(all(flds[n].default is dataclasses.MISSING and flds[n].default_factory is not dataclasses.MISSING for n in ("executor", "unsat_cores"))))
+
+    return [Case(f"{PROP}/solve.SolvingContext#per-context-state", "two contexts, one shut down", harness, replay=replay_script("shared_executor_between_tests.py", "check_A() fails under --early-exit, then check_B() of the same contract"), sources=("halmos.solve:SolvingContext",))]
+
+
 def build_cases(tier="quick"):
-    return verdict_cases() + from_result_cases() + timeout_cases() + classification_cases() + callback_cases() + exit_code_cases() + join_cases()
+    return verdict_cases() + from_result_cases() + timeout_cases() + classification_cases() + callback_cases() + exit_code_cases() + join_cases() + context_cases()
 
 
 def grounds():
